@@ -1,7 +1,7 @@
 SPECIFICATION Spec
 CONSTANTS
   K = 1
-  Variant = "hdr_before_default"
+  Variant = {"hdr_before_default"}
   Emit = FALSE
 INVARIANTS ImplValid ImplHeaders ImplReqOk
 CHECK_DEADLOCK FALSE
